@@ -408,25 +408,40 @@ func types() []typeDef {
 			var calls atomic.Int64
 			var fs [8]func() (int, error)
 			for i := range fs {
-				fs[i] = memo.MemoizeFunc(func() (int, error) { runtime.Gosched(); return int(calls.Add(1)), nil })
+				fs[i] = memo.MemoizeFunc(func() (int, error) {
+					runtime.Gosched()
+					n := int(calls.Add(1))
+					if i%4 == 3 {
+						// the memoized function panics; its callers recover
+						panic("racex: memoized function panics")
+					}
+					if i%4 == 2 {
+						return n, p.errBoom
+					}
+					return n, nil
+				})
 			}
-			return []func(g, a int){func(g, a int) { _, _ = fs[a%8]() }}, nil
+			return []func(g, a int){func(g, a int) {
+				defer func() { _ = recover() }()
+				_, _ = fs[a%8]()
+			}}, nil
 		}},
 		{"iocloser", func(p *prog) ([]func(g, a int), func()) {
 			st := &lockedBuf{}
 			var closes atomic.Int64
-			rc := iocloser.NewReadCloser(st, func() error { closes.Add(1); return nil })
-			wc := iocloser.NewWriteCloser(st, func() error { closes.Add(1); return nil })
+			// the close functions fail: Close may be called again, also from several goroutines at once
+			rc := iocloser.NewReadCloser(st, func() error { closes.Add(1); return p.errBoom })
+			wc := iocloser.NewWriteCloser(st, func() error { closes.Add(1); return p.errBoom })
 			return []func(g, a int){
 				func(g, a int) { _, _ = rc.Read(make([]byte, a%8)) },
 				func(g, a int) { _, _ = wc.Write(make([]byte, a%8)) },
 				func(g, a int) {
-					if a%5 == 0 {
+					if a%3 == 0 {
 						_ = rc.Close()
 					}
 				},
 				func(g, a int) {
-					if a%5 == 0 {
+					if a%3 == 0 {
 						_ = wc.Close()
 					}
 				},
